@@ -172,7 +172,7 @@ def run_stateful(ctx, n):
 
     with SubstitutedPosition():
         for _ in range(n):
-            k = rng.choice([2, 3, 4, 8, 31, 32, 33, 40, 64])
+            k = rng.choice([2, 3, 4, 8, 31, 32, 33, 40, 64, 100, 127, 128, 129, 255, 256, 257, 500, 1000])
             pop = ["p%d" % i for i in range(k)]
             hs = [rng.randrange(2 ** 32) for _ in range(4)] + [0, 2 ** 32 - 1]
             mode = rng.choice(["in-place", "in-place-cum", "temporaries", "equal-distinct", "grow-shrink"])
